@@ -566,6 +566,38 @@ func vReplayJob(task engine.SeqTask) (res engine.SeqResult) {
 					jh.converged("after the source was dropped and created again and one clean run")
 				}
 			}
+		case "resink":
+			// the SINK dataset is dropped and created again under its name between two runs of the same job object; an
+			// incremental job is reset as well (that is how an operator refills a re-created sink)
+			if p.Spec.Mixed {
+				res.Skip, res.Key = true, "skip"
+				return
+			}
+			if err := jw.W.Dsm.DeleteDataset(h.DsName(p.Spec.Sink)); err != nil {
+				res.HarnessEr = "resink: " + err.Error()
+				return
+			}
+			h.M.Delete(p.Spec.Sink)
+			if err := h.EnsureDatasets(p.Spec.Sink); err != nil {
+				res.HarnessEr = "resink: " + err.Error()
+				return
+			}
+			if p.Spec.JobType != "fullsync" {
+				if err := jw.Sched.ResetJob(jh.id, ""); err != nil {
+					res.HarnessEr = "resink: reset: " + err.Error()
+					return
+				}
+			}
+			if last && ran {
+				keyAtEnd = jh.stateKey(names)
+				checks++
+				if r2, p2 := jh.run("", 0); p2 != "" || r2.LastError != "" {
+					jh.fail("run-after-write-fails", fmt.Sprintf("the clean run after the sink was re-created fails: %s %s", p2, r2.LastError))
+				} else {
+					jh.failedFull = false
+					jh.converged("after the sink was dropped and created again (incremental job reset) and one clean run")
+				}
+			}
 		case "runw":
 			// a run during which a source write lands (at the N-th sink call). Equality is only promised for runs
 			// without concurrent writes; the token rule holds regardless, and the next undisturbed run restores equality
@@ -736,7 +768,7 @@ func init() {
 	})
 
 	engine.RegisterCheck("C08", func(r *engine.Run) {
-		r.Rule = "SEQ: for every job configuration (DatasetSource / UnionDatasetSource, with and without LatestOnly, incremental / fullsync, batch sizes 1,2,3,default) every sequence up to the stated depth over {source writes (props, refs, deletes, repeated ids), clean run, run with the sink failing at batch index 1..3, run killed at batch boundary 1..2, a run during which a source write lands at sink call 1..2 (token rule, then convergence after one undisturbed run), for fullsync jobs the source dropped and created again with fewer entities, restart; for the mixed-trigger job also the fullsync trigger clean / failing at batch 1..2}; a history that ends in a source write after earlier runs is followed by one clean run; after every run: token safety (every source change below the persisted token is reflected in the sink), after a successful run sink view = source view and a re-run is a no-op, after a failed/killed run one clean run restores equality. SCHED: one run (incremental / latest-only / union / fullsync, batch size 1) next to a writer of its source under every interleaving up to the preemption bound: the token rule right after it, equality after one further undisturbed run. CRASH: real SIGKILL at every durable commit and at the point between sink write and token store during a run"
+		r.Rule = "SEQ: for every job configuration (DatasetSource / UnionDatasetSource, with and without LatestOnly, incremental / fullsync, batch sizes 1,2,3,default) every sequence up to the stated depth over {source writes (props, refs, deletes, repeated ids), clean run, run with the sink failing at batch index 1..3, run killed at batch boundary 1..2, a run during which a source write lands at sink call 1..2 (token rule, then convergence after one undisturbed run), for fullsync jobs the source dropped and created again with fewer entities, the sink dataset dropped and created again between two runs of the same job object (an incremental job is reset), restart; for the mixed-trigger job also the fullsync trigger clean / failing at batch 1..2}; a history that ends in a source write after earlier runs is followed by one clean run; after every run: token safety (every source change below the persisted token is reflected in the sink), after a successful run sink view = source view and a re-run is a no-op, after a failed/killed run one clean run restores equality. SCHED: one run (incremental / latest-only / union / fullsync, batch size 1) next to a writer of its source under every interleaving up to the preemption bound: the token rule right after it, equality after one further undisturbed run. CRASH: real SIGKILL at every durable commit and at the point between sink write and token store during a run"
 		r.Assumptions = []string{"equality right after a run is only demanded for runs without concurrent source writes (as the property states)", "HTTP sources/sinks: see the http-peer part of C10/C11; proxy datasets as sources are outside"}
 		pool := model.Pool(0)
 		pi := func(n string) int { return model.PoolIndex(pool, n) }
@@ -778,7 +810,7 @@ func init() {
 				{K: "batch", DS: "A", Ents: []server.VEnt{{ID: "e1", C: pi("v2")}, {ID: "e2", C: pi("r1")}, {ID: "e1", C: pi("dv1")}}},
 				{K: "batch", DS: "A", Ents: []server.VEnt{{ID: "e2", C: pi("v1")}, {ID: "e3", C: pi("v1")}}},
 				{K: "run"}, {K: "runfail", N: 1}, {K: "runfail", N: 2}, {K: "runkill", N: 1}, {K: "restart"},
-				{K: "runw", N: 1}, {K: "runw", N: 2}, {K: "recreate"},
+				{K: "runw", N: 1}, {K: "runw", N: 2}, {K: "recreate"}, {K: "resink"},
 				// one entity rewritten many times in a row: a long run of superseded change-log entries
 				{K: "batch", DS: "A", Ents: []server.VEnt{{ID: "e1", C: pi("v1")}, {ID: "e1", C: pi("v2")}, {ID: "e1", C: pi("v1")}, {ID: "e1", C: pi("v2")}, {ID: "e1", C: pi("v1")},
 					{ID: "e1", C: pi("v2")}, {ID: "e1", C: pi("v1")}, {ID: "e1", C: pi("v2")}, {ID: "e1", C: pi("v1")}, {ID: "e1", C: pi("s")}}},
